@@ -94,6 +94,8 @@ func newEmitter(c *Ctx, fi *FuncInfo) *emitter {
 func (e *emitter) run() []emNode {
 	ns := hoistEffects(normalize(simplifyKnown(e.block(e.fi.Decl.Body.List), map[string]bool{}), true))
 	renumber(ns)
+	ns = hoistEffects(normalize(simplifyKnown(flipFlags(ns), map[string]bool{}), true))
+	renumber(ns)
 	return ns
 }
 
